@@ -95,7 +95,7 @@ func (f *FuncCtx) typeFacts(st *State, t Term) {
 		return
 	}
 	if strings.HasPrefix(t.Sort, "Slice_") {
-		st.assume("(>= (len_" + t.Sort + " " + t.S + ") 0)")
+		st.assume("(and (>= (len_" + t.Sort + " " + t.S + ") 0) (<= (len_" + t.Sort + " " + t.S + ") 4611686018427387904))")
 		return
 	}
 	if bits, signed, ok := intInfo(t.GoT); ok && namedPath(t.GoT) != "reflect.Kind" {
@@ -241,6 +241,36 @@ func (f *FuncCtx) fieldLoc(st *State, x *ast.SelectorExpr) (ref Term, owner *typ
 	xt := types.Unalias(f.typeOf(x.X))
 	var st0 *types.Struct
 	basePath := ""
+	// receiver of an inlined method called on an embedded (by-value) struct: a pseudo-term (object ref + field-path prefix)
+	if id, ok := ast.Unparen(x.X).(*ast.Ident); ok {
+		if v, ok := f.tinfo().Uses[id].(*types.Var); ok {
+			if t, ok := st.vars[v]; ok && strings.HasPrefix(t.Sort, "Path:") {
+				ref = Term{S: t.S, Sort: SInt}
+				owner, _ = derefStruct(t.GoT)
+				_, st0 = derefStruct(xt)
+				basePath = strings.TrimPrefix(t.Sort, "Path:") + "."
+				if owner == nil || st0 == nil {
+					unsup("embedded receiver at %s", f.pos(x))
+				}
+				cur := st0
+				var names []string
+				for i, idx := range sel.Index() {
+					fv := cur.Field(idx)
+					names = append(names, fv.Name())
+					ft = fv.Type()
+					if i < len(sel.Index())-1 {
+						ns, ok := types.Unalias(fv.Type()).Underlying().(*types.Struct)
+						if !ok {
+							unsup("promotion through pointer-embedded field at %s", f.pos(x))
+						}
+						cur = ns
+					}
+				}
+				path = basePath + strings.Join(names, ".")
+				return
+			}
+		}
+	}
 	if p, ok := xt.Underlying().(*types.Pointer); ok {
 		ref = f.expr(st, x.X)
 		f.panicIf(st, "(= "+ref.S+" 0)", f.site("nilderef"))
